@@ -67,7 +67,12 @@ func init() {
 		name := fn.String()
 		f := intrinsics[name]
 		delete(intrinsics, name)
-		defer func() { intrinsics[name] = f }()
+		// only for this call the package counts as interpreted (otherwise callSSA hands the
+		// function to the native-call path)
+		pp := fn.Pkg.Pkg.Path()
+		was := in.interpOK[pp]
+		in.interpOK[pp] = true
+		defer func() { intrinsics[name] = f; in.interpOK[pp] = was }()
 		return callSSA(fr, 0, fn, args, nil)
 	})
 }
